@@ -999,6 +999,7 @@ func locksSubstr(t *tr, p *packages.Package) string {
 	var lines []string
 	slice := ""
 	version := map[string]int{}
+	retLow, retHigh := "0", "0"
 	cur := map[string]string{} // Go name -> current Lean name
 	for _, sv := range state {
 		cur[sv] = locksLeanName(sv)
@@ -1062,17 +1063,18 @@ func locksSubstr(t *tr, p *packages.Package) string {
 		for k, v := range env {
 			out[k] = v
 		}
-		if a.Tok != token.ASSIGN || len(a.Lhs) != len(a.Rhs) {
+		if (a.Tok != token.ASSIGN && a.Tok != token.DEFINE) || len(a.Lhs) != len(a.Rhs) {
 			t.errs = append(t.errs, fmt.Sprintf("%s: unsupported: assignment in substr closure", p.Fset.Position(a.Pos())))
 			return out
 		}
 		for i, l := range a.Lhs {
 			id, isId := l.(*ast.Ident)
 			isState := false
-			for _, sv := range state {
-				if isId && id.Name == sv {
-					isState = true
-				}
+			if isId {
+				_, isState = cur[id.Name]
+			}
+			if isId && a.Tok == token.DEFINE {
+				isState = true // a new local integer
 			}
 			if !isState {
 				t.errs = append(t.errs, fmt.Sprintf("%s: unsupported: assignment to %s in substr closure", p.Fset.Position(a.Pos()), types.ExprString(l)))
@@ -1084,8 +1086,8 @@ func locksSubstr(t *tr, p *packages.Package) string {
 	}
 	envNow := func() map[string]string {
 		env := map[string]string{}
-		for _, sv := range state {
-			env[sv] = cur[sv]
+		for k, v := range cur {
+			env[k] = v
 		}
 		if lenVar != "" {
 			env[lenVar] = locksLeanName(lenVar)
@@ -1094,13 +1096,27 @@ func locksSubstr(t *tr, p *packages.Package) string {
 	}
 	commit := func(condText string, after map[string]string) {
 		before := envNow()
-		for _, sv := range state {
+		var names []string
+		for k := range after {
+			if k != lenVar {
+				names = append(names, k)
+			}
+		}
+		sort.Strings(names)
+		for _, sv := range names {
 			if after[sv] == before[sv] {
+				continue
+			}
+			if _, known := before[sv]; !known && condText != "" {
+				t.errs = append(t.errs, "substr closure: variable "+sv+" is defined inside a conditional")
 				continue
 			}
 			version[sv]++
 			name := fmt.Sprintf("%s%d", strings.TrimSuffix(locksLeanName(sv), "_"), version[sv])
 			if condText == "" {
+				if _, known := before[sv]; !known && version[sv] == 1 {
+					name = locksLeanName(sv) + "0"
+				}
 				lines = append(lines, fmt.Sprintf("  let %s : Int := %s", name, after[sv]))
 			} else {
 				lines = append(lines, fmt.Sprintf("  let %s : Int := if %s then %s else %s", name, condText, after[sv], before[sv]))
@@ -1140,6 +1156,8 @@ func locksSubstr(t *tr, p *packages.Package) string {
 			if len(x.Results) == 1 {
 				if se, isSlice := x.Results[0].(*ast.SliceExpr); isSlice && types.ExprString(se.X) == in && se.Low != nil && se.High != nil && !se.Slice3 {
 					slice = types.ExprString(se.Low) + ":" + types.ExprString(se.High)
+					env := envNow()
+					retLow, retHigh = expr(se.Low, env), expr(se.High, env)
 					continue
 				}
 			}
@@ -1148,18 +1166,101 @@ func locksSubstr(t *tr, p *packages.Package) string {
 			t.errs = append(t.errs, fmt.Sprintf("%s: unsupported: statement in substr closure", p.Fset.Position(st.Pos())))
 		}
 	}
-	tuple := "(" + cur[state[0]] + ", " + cur[state[1]] + ")"
+	tuple := "(" + retLow + ", " + retHigh + ")"
+	// which captured variables the body assigns: the versions it introduced
+	var assigned []string
+	for _, sv := range state {
+		if version[sv] > 0 {
+			assigned = append(assigned, sv)
+		}
+	}
 	if lenVar == "" {
 		t.errs = append(t.errs, "substr closure: no `l := len(in)`")
 		lenVar = "l"
 	}
 	var b strings.Builder
-	b.WriteString("\n/-- regenerated from the closure returned by `(*VarHeaderPostprocessor).substr`: what one call does to the captured\n")
-	b.WriteString("bounds, given the length of its argument -/\n")
+	b.WriteString("\n/-- regenerated from the closure returned by `(*VarHeaderPostprocessor).substr`: the bounds of the slice one call\n")
+	b.WriteString("returns, computed from the two captured integers (in order of declaration) and the length of its argument -/\n")
 	b.WriteString("def substrBody (" + locksLeanName(state[0]) + " " + locksLeanName(state[1]) + " " + locksLeanName(lenVar) + " : Int) : Int × Int :=\n")
 	b.WriteString(strings.Join(lines, "\n") + "\n  " + tuple + "\n")
-	b.WriteString("\n/-- the captured variables in order of declaration, and the slice expression the closure returns -/\n")
+	b.WriteString("\n/-- the captured integers in order of declaration, those of them the body assigns (it leaves the slice bounds in them),\n")
+	b.WriteString("and the slice expression the closure returns -/\n")
 	b.WriteString(fmt.Sprintf("def substrState : List String := %s\n", locksStrList(state)))
+	b.WriteString(fmt.Sprintf("def substrAssigns : List String := %s\n", locksStrList(assigned)))
 	b.WriteString(fmt.Sprintf("def substrSlices : String := %q\n", slice))
+	return b.String()
+}
+
+// ---------------------------------------------------------------- package-level variables
+
+// locksPkgVars: every package-level variable of the scanned packages with the functions (other than `init`) that write
+// it — assign it, one of its fields or elements, take its address, or call a method on it when it is a math/rand.Rand —
+// and how each write is protected (the held-set tracker of the first part: mutex / once, or the variable's own type:
+// atomic, sync.Map, sync.Pool, channel). The reflection walker of the driver cannot reach package-level state; this is
+// its static counterpart.
+func locksPkgVars(t *tr, pkgs []*packages.Package) string {
+	var rows []string
+	for _, p := range pkgs {
+		short := strings.TrimPrefix(p.PkgPath, locksPandora)
+		scope := p.Types.Scope()
+		vars := map[types.Object]string{}
+		for _, name := range scope.Names() {
+			if v, ok := scope.Lookup(name).(*types.Var); ok {
+				pos := p.Fset.Position(v.Pos())
+				if strings.HasSuffix(pos.Filename, "_test.go") {
+					continue
+				}
+				vars[v] = name
+			}
+		}
+		if len(vars) == 0 {
+			continue
+		}
+		writers := map[string]map[string]bool{} // var -> "func(guard)"
+		for _, f := range p.Syntax {
+			if locksIsTestFile(p, f) {
+				continue
+			}
+			for _, d := range f.Decls {
+				fd, ok := d.(*ast.FuncDecl)
+				if !ok || fd.Body == nil || fd.Name.Name == "init" {
+					continue
+				}
+				s := &lockScan{t: t, p: p, tgt: lockTarget{pkg: short}, fields: map[string]*types.Var{}, vars: vars, writes: map[ast.Expr]bool{}}
+				s.fn = fd.Name.Name
+				// address-of and method calls with pointer receivers on struct variables count as writes
+				ast.Inspect(fd.Body, func(m ast.Node) bool {
+					if u, ok := m.(*ast.UnaryExpr); ok && u.Op == token.AND {
+						s.writes[baseOf(u.X)] = true
+					}
+					return true
+				})
+				s.scanBody(fd.Body)
+				for _, r := range s.rows {
+					if !r.write {
+						continue
+					}
+					g := r.guard
+					if r.unguarded {
+						g = ".none"
+					}
+					name := strings.TrimPrefix(r.obj, short+".")
+					if writers[name] == nil {
+						writers[name] = map[string]bool{}
+					}
+					writers[name][fmt.Sprintf("(%q, %q)", fd.Name.Name, g)] = true
+				}
+			}
+		}
+		for v, name := range vars {
+			ty := types.TypeString(v.Type(), func(q *types.Package) string { return q.Name() })
+			rows = append(rows, fmt.Sprintf("  (%q, %q, [%s])", short+"."+name, ty, strings.Join(locksSorted(writers[name]), ", ")))
+		}
+	}
+	sort.Strings(rows)
+	var b strings.Builder
+	b.WriteString("\n/-- regenerated: every package-level variable of the scanned packages (name, type, the functions other than `init`\n")
+	b.WriteString("that write it, each with the protection of the write as a `C11Guard` term in text) -/\n")
+	b.WriteString("def pkgVars : List (String × String × List (String × String)) := [\n" + strings.Join(rows, ",\n") + "\n]\n")
 	return b.String()
 }
